@@ -17,9 +17,11 @@ def stepc (isAbs : Bool) (stack : List String) (c : String) : List String :=
 /-- Components of `normpath(path)`, first first (`[]` stands for `.`). -/
 def normComps (isAbs : Bool) (comps : List String) : List String := (comps.foldl (stepc isAbs) []).reverse
 
-def sanitize (keepSlash : Bool) (v : String) : String :=
-  let v := v.replace " " "_"
-  if keepSlash then v else v.replace "/" "_"
+/-- `value.replace(" ", "_")` and, unless the field is written `{field:/}`, `value.replace("/", "_")`. -/
+def sanitizeL (keepSlash : Bool) (v : List Char) : List Char :=
+  v.map (fun c => if c = ' ' then '_' else if c = '/' ∧ keepSlash = false then '_' else c)
+
+def sanitize (keepSlash : Bool) (v : String) : String := String.ofList (sanitizeL keepSlash v.toList)
 
 /-- `FileTemplate.format` for a template of the shape
 `{run:/}/<dir fields…>/<file fields…>_{run}`; result = components of the relative path. -/
